@@ -281,6 +281,12 @@ def near_misses(pw_bytes, sig, rng):
     for ext in (b"x", b"X", b"0", b".", b"!", b"a", b" ", b"\t", b"\xc3\xa9", b"zz"):
         add("extend", b + ext)
         add("prepend", ext + b)
+    # control characters other than the documented blanks: line breaks, vertical tab, form feed, unit separator
+    for ctl in (b"\n", b"\r", b"\x0b", b"\x0c", b"\x1f", b"\x7f"):
+        add("control", b + ctl)
+        add("control", ctl + b)
+        if n >= 2:
+            add("control", b[: n // 2] + ctl + b[n // 2 :])
     if n:
         add("extend", b + b[-1:])
         add("extend", b + b)
